@@ -124,7 +124,12 @@ def build(desc, dataset_bytes=None):
         if m.dataset is None:
             raise KeyError(f"{kind} carries no data set")
         try:
-            setattr(p, m.dataset[0], BytesIO(bytes(ds)))
+            stream = BytesIO(bytes(ds))
+            # desc["ds_pos"]: where the stream's position is when the primitive gets it (a caller may have written the bytes
+            # into it or read it before): "start" (default), "middle", "end". The content of the stream is what counts.
+            pos = desc.get("ds_pos", "start")
+            stream.seek({"start": 0, "middle": len(ds) // 2, "end": len(ds)}[pos])
+            setattr(p, m.dataset[0], stream)
         except (ValueError, TypeError) as e:
             raise Rejected(m.dataset[0], e)
     return p
